@@ -195,7 +195,7 @@ class Agg:
 
 KNOWN_FILE = os.path.join(VERIF, "known_findings.json")
 # runs against a scratch copy (mutants) must not overwrite the evidence / replays of the real tree
-OUT_DIR = os.environ.get("MCK_OUT_DIR") or (VERIF if not os.environ.get("MCK_REPO") else "/var/tmp/mck-mutant-out")
+OUT_DIR = os.environ.get("MCK_OUT_DIR") or (VERIF if not os.environ.get("MCK_REPO") else "/var/tmp/mck-out-" + os.path.basename(os.environ["MCK_REPO"].rstrip("/")))
 
 
 def load_known(prop: str) -> List[dict]:
